@@ -1,5 +1,421 @@
+//! Workload "fuzz" (C08 + C09): structure-aware mutants of valid files are fed to every reading
+//! entry point under the process monitors: panic hook + catch_unwind (C08), counting allocator,
+//! device-traffic counters and yield counters per public call (C09).
+
+use crate::alloc;
+use crate::crc::FastCrc;
+use crate::dev::Dev;
+use crate::json::J;
+use crate::mutate::*;
+use crate::obs::*;
+use crate::rng::Rng;
+use crate::scene::{guarded, panic_sig};
 use crate::{Args, Reporter};
-pub fn run(_a: &Args, _rep: &mut Reporter) {
-    eprintln!("workload not built yet");
-    std::process::exit(2);
+use e57::*;
+
+const YIELD_CAP: u64 = 20_000;
+const YIELD_CAP_SIMPLE: u64 = 3_000;
+
+pub fn load_seeds(seed: u64, n_generated: u64) -> Vec<(String, Vec<u8>)> {
+    let mut v = Vec::new();
+    let names = [
+        "tinyCartesianFloatRgb.e57",
+        "tiny_pc_and_images.e57",
+        "tiny_pc_with_extension.e57",
+        "tiny_spherical.e57",
+        "empty.e57",
+        "empty_pc.e57",
+        "original_guids.e57",
+        "integer_intensity.e57",
+        "scaled_integer_intensity.e57",
+        "float_intensity_without_min_max.e57",
+        "no_ext_namespace.e57",
+        "las2e57_no_images_tag.e57",
+        "read_error.e57",
+        "corrupt_crc.e57",
+    ];
+    for n in names {
+        if let Ok(b) = std::fs::read(format!("/repo/testdata/{}", n)) {
+            if b.len() <= 600 * 1024 {
+                v.push((n.to_string(), b));
+            }
+        }
+    }
+    let mut scratch = crate::Cover::default();
+    for i in 0..n_generated {
+        if let Some((b, _)) = crate::w_crc::make_file(seed ^ 0xF022, i, &mut scratch) {
+            v.push((format!("generated:{}", i), b));
+        }
+    }
+    v
+}
+
+pub struct Budget {
+    pub len: usize,
+}
+impl Budget {
+    fn max_peak(&self) -> usize {
+        256 * self.len + 64 * 1024 * 1024
+    }
+    fn max_read_bytes(&self) -> u64 {
+        64 * self.len as u64 + 16 * 1024 * 1024
+    }
+    fn max_reads(&self) -> u64 {
+        self.len as u64 / 4 + 4096
+    }
+}
+
+struct Mon<'a> {
+    rep: &'a mut Reporter,
+    idx: u64,
+    budget: Budget,
+    desc: String,
+    max_ratio_peak: f64,
+    max_reads: u64,
+}
+
+impl<'a> Mon<'a> {
+    /// run one public call under all monitors; None = panicked (already reported)
+    fn call<R>(&mut self, entry: &str, dev: Option<&Dev>, f: impl FnOnce() -> R) -> Option<R> {
+        let base = alloc::reset_peak();
+        if let Some(d) = dev {
+            d.reset_counters();
+        }
+        let r = guarded(f);
+        let peak = alloc::peak().saturating_sub(base);
+        self.rep.stat("calls_monitored", 1);
+        let ratio = peak as f64 / self.budget.len.max(1) as f64;
+        if ratio > self.max_ratio_peak {
+            self.max_ratio_peak = ratio;
+        }
+        self.rep.stat_max("max_peak_bytes_per_call", peak as u64);
+        if peak > self.budget.max_peak() {
+            self.rep.violation("C09", &format!("budget/peak-memory/{}", entry), self.idx, &format!("{}: one call to {} had a peak of {} live bytes for a {} byte input (budget {})", self.desc, entry, peak, self.budget.len, self.budget.max_peak()));
+        }
+        if let Some(d) = dev {
+            let c = d.counters();
+            self.rep.stat_max("max_device_reads_per_call", c.reads);
+            self.rep.stat_max("max_device_read_bytes_per_call", c.read_bytes);
+            if c.reads > self.max_reads {
+                self.max_reads = c.reads;
+            }
+            if c.read_bytes > self.budget.max_read_bytes() {
+                self.rep.violation("C09", &format!("budget/device-bytes/{}", entry), self.idx, &format!("{}: one call to {} read {} bytes from a {} byte input", self.desc, entry, c.read_bytes, self.budget.len));
+            }
+            if c.reads > self.budget.max_reads() {
+                self.rep.violation("C09", &format!("budget/device-reads/{}", entry), self.idx, &format!("{}: one call to {} issued {} device reads for a {} byte input", self.desc, entry, c.reads, self.budget.len));
+            }
+        }
+        match r {
+            Ok(v) => Some(v),
+            Err(p) => {
+                self.rep.violation("C08", &format!("panic/{}/{}", entry, panic_sig(&p)), self.idx, &format!("{}: {} panicked: {}", self.desc, entry, p));
+                None
+            }
+        }
+    }
+}
+
+/// The full reading entry-point suite on one input.
+pub fn exercise(img: &[u8], desc: &str, idx: u64, rep: &mut Reporter, cover: &mut crate::Cover, r: &mut Rng, all_opts: bool) {
+    let mut m = Mon { rep, idx, budget: Budget { len: img.len() }, desc: desc.to_string(), max_ratio_peak: 0.0, max_reads: 0 };
+    // --- standalone functions
+    {
+        let dev = Dev::new(img.to_vec());
+        let d2 = dev.clone();
+        if let Some(res) = m.call("validate_crc", Some(&dev), move || E57Reader::validate_crc(d2)) {
+            cover.hit(if res.is_ok() { "validate_crc:ok" } else { "validate_crc:err" });
+        }
+    }
+    {
+        let dev = Dev::new(img.to_vec());
+        let d2 = dev.clone();
+        if let Some(res) = m.call("raw_xml", Some(&dev), move || E57Reader::raw_xml(d2)) {
+            cover.hit(if res.is_ok() { "raw_xml:ok" } else { "raw_xml:err" });
+        }
+    }
+    // --- open
+    let dev = Dev::new(img.to_vec());
+    let d2 = dev.clone();
+    let rd = match m.call("E57Reader::new", Some(&dev), move || E57Reader::new(d2)) {
+        Some(Ok(rd)) => rd,
+        Some(Err(e)) => {
+            cover.hit("new:err");
+            cover.hit_num("error_class", crate::rng::hash_str(&err_class(&e)) >> 12);
+            return;
+        }
+        None => return,
+    };
+    let mut rd = rd;
+    cover.hit("new:ok");
+    m.rep.stat("inputs_opened", 1);
+    // getters
+    let got = m.call("getters", Some(&dev), || {
+        let _ = (rd.header(), rd.xml().len(), rd.format_name().len(), rd.guid().len(), rd.library_version().map(|s| s.len()), rd.creation(), rd.coordinate_metadata().map(|s| s.len()), rd.extensions().len());
+        (rd.pointclouds(), rd.images())
+    });
+    let (pcs, imgs) = match got {
+        Some(x) => x,
+        None => return,
+    };
+    for (pi, pc) in pcs.iter().take(6).enumerate() {
+        // helper getters on descriptors
+        let _ = m.call("pointcloud-helpers", None, || (pc.has_cartesian(), pc.has_spherical(), pc.has_color(), pc.has_intensity(), pc.has_row_column(), pc.has_return(), pc.has_timestamp(), pc.get_cartesian_bounds()));
+        // raw iterator
+        let it = m.call("pointcloud_raw", Some(&dev), || rd.pointcloud_raw(pc));
+        match it {
+            Some(Ok(mut it)) => {
+                let mut yielded: u64 = 0;
+                loop {
+                    // each step is one monitored call
+                    let base = alloc::reset_peak();
+                    dev.reset_counters();
+                    let step = guarded(|| it.next());
+                    let peak = alloc::peak().saturating_sub(base);
+                    let c = dev.counters();
+                    m.rep.stat("iterator_steps_monitored", 1);
+                    m.rep.stat_max("max_peak_bytes_per_call", peak as u64);
+                    m.rep.stat_max("max_device_read_bytes_per_call", c.read_bytes);
+                    m.rep.stat_max("max_device_reads_per_call", c.reads);
+                    if peak > m.budget.max_peak() {
+                        m.rep.violation("C09", "budget/peak-memory/raw-next", idx, &format!("{}: one raw next() had a peak of {} bytes for a {} byte input", desc, peak, img.len()));
+                        break;
+                    }
+                    if c.read_bytes > m.budget.max_read_bytes() || c.reads > m.budget.max_reads() {
+                        m.rep.violation("C09", "budget/device/raw-next", idx, &format!("{}: one raw next() read {} bytes in {} reads for a {} byte input", desc, c.read_bytes, c.reads, img.len()));
+                        break;
+                    }
+                    match step {
+                        Err(p) => {
+                            m.rep.violation("C08", &format!("panic/raw-next/{}", panic_sig(&p)), idx, &format!("{}: raw iterator of pc{} panicked after {} items: {}", desc, pi, yielded, p));
+                            break;
+                        }
+                        Ok(None) => {
+                            cover.hit("raw:end-none");
+                            break;
+                        }
+                        Ok(Some(Err(e))) => {
+                            cover.hit("raw:end-err");
+                            cover.hit_num("error_class", crate::rng::hash_str(&err_class(&e)) >> 12);
+                            break;
+                        }
+                        Ok(Some(Ok(_))) => {
+                            yielded += 1;
+                            if yielded > pc.records {
+                                m.rep.violation("C09", "yield-more-than-recordCount/raw", idx, &format!("{}: raw iterator yielded {} items, recordCount is {}", desc, yielded, pc.records));
+                                break;
+                            }
+                            if yielded >= YIELD_CAP {
+                                cover.hit("raw:end-cap");
+                                break;
+                            }
+                        }
+                    }
+                }
+                if yielded > 0 {
+                    m.rep.stat("inputs_reached_packet_decoding", 1);
+                }
+                m.rep.stat("raw_items_yielded", yielded);
+            }
+            Some(Err(e)) => {
+                cover.hit("raw:open-err");
+                cover.hit_num("error_class", crate::rng::hash_str(&err_class(&e)) >> 12);
+            }
+            None => {}
+        }
+        // simple iterator under option vectors
+        let opts: Vec<u8> = if all_opts {
+            (0..64).collect()
+        } else {
+            vec![Opts::DEFAULT.0, r.usize(64) as u8, r.usize(64) as u8, r.usize(64) as u8]
+        };
+        for ob in opts {
+            let o = Opts(ob);
+            let it = m.call("pointcloud_simple", Some(&dev), || rd.pointcloud_simple(pc));
+            match it {
+                Some(Ok(mut it)) => {
+                    it.spherical_to_cartesian(o.s2c());
+                    it.cartesian_to_spherical(o.c2s());
+                    it.intensity_to_color(o.i2c());
+                    it.normalize_intensity(o.ni());
+                    it.normalize_color(o.nc());
+                    it.apply_pose(o.pose());
+                    let mut yielded: u64 = 0;
+                    loop {
+                        let base = alloc::reset_peak();
+                        dev.reset_counters();
+                        let step = guarded(|| it.next());
+                        let peak = alloc::peak().saturating_sub(base);
+                        let c = dev.counters();
+                        m.rep.stat("iterator_steps_monitored", 1);
+                        m.rep.stat_max("max_peak_bytes_per_call", peak as u64);
+                        if peak > m.budget.max_peak() {
+                            m.rep.violation("C09", "budget/peak-memory/simple-next", idx, &format!("{}: one simple next() had a peak of {} bytes for a {} byte input", desc, peak, img.len()));
+                            break;
+                        }
+                        if c.read_bytes > m.budget.max_read_bytes() || c.reads > m.budget.max_reads() {
+                            m.rep.violation("C09", "budget/device/simple-next", idx, &format!("{}: one simple next() read {} bytes in {} reads", desc, c.read_bytes, c.reads));
+                            break;
+                        }
+                        match step {
+                            Err(p) => {
+                                m.rep.violation("C08", &format!("panic/simple-next/{}", panic_sig(&p)), idx, &format!("{}: simple iterator of pc{} (opts {:06b}) panicked after {} items: {}", desc, pi, ob, yielded, p));
+                                break;
+                            }
+                            Ok(None) => break,
+                            Ok(Some(Err(e))) => {
+                                cover.hit_num("error_class", crate::rng::hash_str(&err_class(&e)) >> 12);
+                                break;
+                            }
+                            Ok(Some(Ok(_))) => {
+                                yielded += 1;
+                                if yielded > pc.records {
+                                    m.rep.violation("C09", "yield-more-than-recordCount/simple", idx, &format!("{}: simple iterator yielded {} items, recordCount is {}", desc, yielded, pc.records));
+                                    break;
+                                }
+                                if yielded >= YIELD_CAP_SIMPLE {
+                                    break;
+                                }
+                            }
+                        }
+                    }
+                    if yielded > 0 {
+                        m.rep.stat("inputs_reached_simple_points", 1);
+                    }
+                }
+                Some(Err(e)) => {
+                    cover.hit_num("error_class", crate::rng::hash_str(&err_class(&e)) >> 12);
+                }
+                None => {}
+            }
+        }
+    }
+    // blobs: from descriptors + hostile descriptors
+    let mut blobs: Vec<Blob> = Vec::new();
+    for im in imgs.iter().take(6) {
+        for (_, b) in img_blobs(im) {
+            blobs.push(b);
+        }
+    }
+    let known: Vec<Blob> = blobs.clone();
+    for b in known.iter().take(3) {
+        blobs.push(Blob::new(b.offset, b.length.wrapping_add(*r.pick(&[1u64, 16, 17, 1 << 40, u64::MAX - b.length]))));
+        blobs.push(Blob::new(b.offset.wrapping_add(*r.pick(&[1u64, 4, 16, 1020, 1024])), b.length));
+    }
+    for _ in 0..3 {
+        blobs.push(Blob::new(*r.pick(HOSTILE_U64) % (img.len() as u64 + 2048), *r.pick(HOSTILE_U64)));
+    }
+    for pc in pcs.iter().take(2) {
+        blobs.push(Blob::new(pc.file_offset, 64)); // a CV section read as blob
+    }
+    for b in blobs.iter().take(24) {
+        let mut sink = CountSink { n: 0 };
+        let res = m.call("blob", Some(&dev), || rd.blob(b, &mut sink));
+        match res {
+            Some(Ok(n)) => {
+                cover.hit("blob:ok");
+                if n != sink.n {
+                    m.rep.violation("C06", "blob/count-mismatch", idx, &format!("{}: blob() returned {} but wrote {} bytes", desc, n, sink.n));
+                }
+                if n > b.length {
+                    m.rep.violation("C06", "blob/more-than-length", idx, &format!("{}: blob() returned {} for a descriptor of length {}", desc, n, b.length));
+                }
+                if n < b.length {
+                    m.rep.violation("C06", "blob/short-ok", idx, &format!("{}: blob({}+{}) returned Ok({}) - fewer bytes than the descriptor's length", desc, b.offset, b.length, n));
+                }
+                if sink.n > 64 * img.len() as u64 + (16 << 20) {
+                    m.rep.violation("C09", "budget/blob-output", idx, &format!("{}: blob() produced {} bytes from a {} byte input", desc, sink.n, img.len()));
+                }
+            }
+            Some(Err(_)) => cover.hit("blob:err"),
+            None => {}
+        }
+    }
+    let ratio = m.max_ratio_peak;
+    m.rep.stat_max("max_peak_over_input_x1000", (ratio * 1000.0) as u64);
+}
+
+struct CountSink {
+    n: u64,
+}
+impl std::io::Write for CountSink {
+    fn write(&mut self, b: &[u8]) -> std::io::Result<usize> {
+        self.n += b.len() as u64;
+        Ok(b.len())
+    }
+    fn flush(&mut self) -> std::io::Result<()> {
+        Ok(())
+    }
+}
+
+pub fn run(a: &Args, rep: &mut Reporter) {
+    let fc = FastCrc::new();
+    alloc::set_cap(a.get_u64("capmb", 1536) as usize * 1024 * 1024);
+    let seeds = load_seeds(a.seed, a.get_u64("genseeds", 12));
+    if seeds.is_empty() {
+        eprintln!("no seed files found");
+        std::process::exit(2);
+    }
+    let walks: Vec<Option<Walk>> = seeds.iter().map(|(_, b)| Walk::new(b)).collect();
+    let nseeds = seeds.len() as u64;
+    let nops = OPS.len() as u64;
+    let (done, reason) = crate::run_cases(a, rep, |idx, cs, rep| {
+        let mut r = Rng::new(cs);
+        let mut cover = std::mem::take(&mut rep.cover);
+        let si = (idx % nseeds) as usize;
+        let opn = ((idx / nseeds) % nops) as usize;
+        let rep_no = idx / (nseeds * nops);
+        let (sname, sbytes) = &seeds[si];
+        let w = match &walks[si] {
+            Some(w) => w,
+            None => {
+                rep.cover = cover;
+                return;
+            }
+        };
+        // the mutators work on hostile intermediate images when stacked: a failure inside them is a
+        // harness matter (not applicable), never a verdict
+        let first = guarded(|| mutate(w, sbytes, opn, &mut r, &fc)).unwrap_or_else(|p| {
+            eprintln!("note: mutator failed on case {}: {}", idx, p);
+            None
+        });
+        let mut m = match first {
+            Some(m) => m,
+            None => {
+                rep.stat("operator_not_applicable", 1);
+                rep.cover = cover;
+                return;
+            }
+        };
+        // stacked second mutation
+        let mut desc = format!("{} <- {} ({})", sname, m.op, m.note);
+        if r.chance(1, 4) {
+            if let Some(w2) = guarded(|| Walk::new(&m.img)).unwrap_or(None) {
+                let op2 = r.usize(OPS.len());
+                let second = guarded(|| mutate(&w2, &m.img.clone(), op2, &mut r, &fc)).unwrap_or(None);
+                if let Some(m2) = second {
+                    desc = format!("{} <- {} ({})", desc, m2.op, m2.note);
+                    m = Mutant { img: m2.img, op: m.op, note: m.note };
+                    rep.stat("stacked_mutants", 1);
+                }
+            }
+        }
+        rep.journal(idx, &desc.chars().take(150).collect::<String>());
+        rep.stat("inputs", 1);
+        cover.hit(&format!("operator:{}", m.op));
+        cover.hit_num("input_identity", crate::json::fnv64(&m.img) >> 8);
+        if rep.verbose {
+            eprintln!("CASE {} :: {} :: {} bytes", idx, desc, m.img.len());
+            if let Some(p) = a.get("save") {
+                let _ = std::fs::write(p, &m.img);
+            }
+        }
+        let all_opts = rep_no == 0 && si < 2;
+        exercise(&m.img, &desc, idx, rep, &mut cover, &mut r, all_opts);
+        if rep.samples < rep.max_samples && idx % 41 == 7 {
+            rep.sample(J::obj().set("case", J::i(idx as i128)).set("input", J::s(&desc)).set("bytes", J::u(m.img.len())));
+        }
+        rep.cover = cover;
+    });
+    rep.finish(done, reason);
 }
